@@ -419,15 +419,23 @@ def run(ctx: Ctx) -> None:
         raise AnchorError("dds._config.reset_option not found")
     ro = unfacade(ctx, ro)
     n11 = 0
-    # the table of option values: the module-level mapping that get_option answers from
+    # the table of option values: the mapping that get_option answers from (a module-level dictionary, or an attribute of the registry object the functions delegate to)
     go = prog.func("dds._config.get_option")
     tables = set()
+
+    def _ret_tables(g: Func, depth: int = 0) -> None:
+        for r_ in g.own_nodes():
+            if isinstance(r_, ast.Return) and isinstance(r_.value, ast.Subscript) and isinstance(r_.value.value, (ast.Name, ast.Attribute)):
+                tables.add(unparse(r_.value.value))
+            elif isinstance(r_, ast.Return) and isinstance(r_.value, ast.Call) and depth < 2:
+                hs_, _ = prog.callees(g, r_.value, ctx._types)
+                for h_ in hs_:
+                    if h_.module.name.startswith("dds") and h_ is not g:
+                        _ret_tables(h_, depth + 1)
     if go is not None:
-        for r_ in unfacade(ctx, go).own_nodes():
-            if isinstance(r_, ast.Return) and isinstance(r_.value, ast.Subscript) and isinstance(r_.value.value, ast.Name):
-                tables.add(r_.value.value.id)
-    stores11 = [st for st in ro.own_nodes() if isinstance(st, ast.Assign) and any(isinstance(t, ast.Subscript) and isinstance(t.value, ast.Name) and (not tables or t.value.id in tables)
-                                                                                 for t in st.targets)]
+        _ret_tables(go)
+    stores11 = [st for st in ro.own_nodes() if isinstance(st, ast.Assign) and any(isinstance(t, ast.Subscript) and isinstance(t.value, (ast.Name, ast.Attribute))
+                                                                                 and (not tables or unparse(t.value) in tables) for t in st.targets)]
     if tables and not stores11:
         n11 += 1
         others = [st for st in ro.own_nodes() if isinstance(st, (ast.Assign, ast.AugAssign))]
@@ -515,6 +523,8 @@ def run(ctx: Ctx) -> None:
             tys = kws.get("types")
             if isinstance(key_, ast.Constant) and tys is not None and "type(None)" in unparse(tys, 200):
                 none_keys.add(key_.value)
+    # holders of the option's value: the local it is read into, the parameters it is handed to, the attributes it is stored in
+    holders: List[Tuple[str, Any, str, str, str]] = []   # (kind, func-or-class, text, option key, where)
     for f_ in prog.funcs.values():
         if not f_.module.name.startswith("dds") or f_.module is cfgmod:
             continue
@@ -522,14 +532,63 @@ def run(ctx: Ctx) -> None:
             if isinstance(st, (ast.Assign, ast.AnnAssign)) and isinstance(st.value, ast.Call) and unparse(st.value.func).split(".")[-1] == "get_option" and st.value.args \
                     and isinstance(st.value.args[0], ast.Constant) and st.value.args[0].value in none_keys:
                 tg = st.targets[0] if isinstance(st, ast.Assign) else st.target
-                if not isinstance(tg, ast.Name):
-                    continue
-                var = tg.id
-                scopes_ = [f_] + list(f_.nested.values())
+                if isinstance(tg, ast.Name):
+                    holders.append(("local", f_, tg.id, st.value.args[0].value, f_.loc(st)))
+                elif isinstance(tg, ast.Attribute) and isinstance(tg.value, ast.Name) and tg.value.id == "self" and f_.cls is not None:
+                    holders.append(("attr", f_.cls, unparse(tg), st.value.args[0].value, f_.loc(st)))
+    seen_h = set()
+    work = list(holders)
+    holders = []
+    while work and len(seen_h) < 40:
+        h_ = work.pop()
+        key_h = (h_[0], getattr(h_[1], "qname", None), h_[2])
+        if key_h in seen_h:
+            continue
+        seen_h.add(key_h)
+        holders.append(h_)
+        if h_[0] != "local":
+            continue
+        f0, v0 = h_[1], h_[2]
+        for g_ in [f0] + list(f0.nested.values()):
+            for y in g_.own_nodes():
+                # stored in an attribute of the object
+                if isinstance(y, (ast.Assign, ast.AnnAssign)) and isinstance(y.value, ast.Name) and y.value.id == v0:
+                    t_ = y.targets[0] if isinstance(y, ast.Assign) else y.target
+                    if isinstance(t_, ast.Attribute) and isinstance(t_.value, ast.Name) and t_.value.id == "self" and g_.cls is not None:
+                        work.append(("attr", g_.cls, unparse(t_), h_[3], h_[4]))
+                # handed to a function / constructor of the package
+                if isinstance(y, ast.Call):
+                    pos = [i_ for i_, a_ in enumerate(y.args) if isinstance(a_, ast.Name) and a_.id == v0]
+                    kw_ = [k_.arg for k_ in y.keywords if isinstance(k_.value, ast.Name) and k_.value.id == v0 and k_.arg]
+                    if not pos and not kw_:
+                        continue
+                    fs_, _ = prog.callees(g_, y, ctx._types)
+                    d_ = prog.dotted(g_, y.func) or ""
+                    k_cls = prog.cls(d_) if d_ else None
+                    if k_cls is not None and "__init__" in k_cls.methods:
+                        fs_ = [k_cls.methods["__init__"]]
+                    for callee in fs_:
+                        if not callee.module.name.startswith("dds"):
+                            continue
+                        ps_ = [p_ for p_ in callee.positional_params()]
+                        off = 1 if ps_ and ps_[0] in ("self", "cls") and (k_cls is not None or isinstance(y.func, ast.Attribute)) else 0
+                        for i_ in pos:
+                            if i_ + off < len(ps_):
+                                work.append(("local", callee, ps_[i_ + off], h_[3], h_[4]))
+                        for nm in kw_:
+                            if nm in callee.params:
+                                work.append(("local", callee, nm, h_[3], h_[4]))
+    for kind_h, owner, var, optkey, where_h in holders:
+        if kind_h == "local":
+            scopes_ = [owner] + list(owner.nested.values())
+        else:
+            scopes_ = [m__ for m__ in owner.methods.values()] + [nf_ for m__ in owner.methods.values() for nf_ in m__.nested.values()]
+        if True:
+            if True:
                 for g_ in scopes_:
                     for cmp_ in g_.own_nodes():
                         if isinstance(cmp_, ast.Compare) and any(isinstance(o, (ast.Lt, ast.LtE, ast.Gt, ast.GtE)) for o in cmp_.ops) and any(
-                                isinstance(x, ast.Name) and x.id == var for x in [cmp_.left] + list(cmp_.comparators)):
+                                isinstance(x, (ast.Name, ast.Attribute)) and unparse(x) == var for x in [cmp_.left] + list(cmp_.comparators)):
                             n14 += 1
                             par = g_.module.parent.get(cmp_)
                             guarded = isinstance(par, ast.BoolOp) and isinstance(par.op, ast.And) and any(
@@ -540,12 +599,12 @@ def run(ctx: Ctx) -> None:
                                 nn = [b for b in gcfg.nodes if b.kind == "branch" and isinstance(b.ast, ast.Compare) and unparse(b.ast.left) == var and unparse(b.ast.comparators[0]) == "None"
                                       and ((isinstance(b.ast.ops[0], ast.IsNot) and b.label == "T") or (isinstance(b.ast.ops[0], ast.Is) and b.label == "F"))]
                                 guarded = bool(nn) and dominated(ctx, g_, cmp_, nn) is None
-                            desc = f"`{unparse(cmp_, 40)}` compares the option `{st.value.args[0].value}` only when it is not None"
+                            desc = f"`{unparse(cmp_, 40)}` compares the option `{optkey}` only when it is not None"
                             if guarded:
                                 rep.ok("C05.R14", g_.qname, desc, g_.loc(cmp_))
                             else:
-                                rep.bad("C05.R14", g_.qname, desc, g_.loc(cmp_), [f"{f_.loc(st)}: `{var}` is the value of an option that accepts None",
-                                        f"{g_.loc(cmp_)}: `{unparse(cmp_, 50)}` raises TypeError when it is None: after dds.set_option('{st.value.args[0].value}', None) hashing any list / dict / "
+                                rep.bad("C05.R14", g_.qname, desc, g_.loc(cmp_), [f"{where_h}: `{var}` holds the value of an option that accepts None",
+                                        f"{g_.loc(cmp_)}: `{unparse(cmp_, 50)}` raises TypeError when it is None: after dds.set_option('{optkey}', None) hashing any list / dict / "
                                         "dataclass ends with a low-level exception"], stmt_key(cmp_), what="an option that accepts None is compared without a None test")
     rep.floor("C05.R14", n14, 1)
     rep.rule("C05.R8", "the digest helpers hash their argument itself (an encode at most between the parameter and hashlib)")
@@ -990,3 +1049,28 @@ def _range_guard(ctx: Ctx, h: Func, call: ast.Call, var: str, lo: Optional[int],
             return False, [f"{h.loc(c)}: range test `{unparse(c)}` admits values outside [{lo}, {hi})"]
     # enclosing try converting to a DDSException
     return False, [f"{h.loc(call)}: no dominating range test on `{var}`"]
+
+
+def dict_order_insensitive(ctx: Ctx, rule: str) -> int:
+    """The branch of the value hasher that takes plain dictionaries gives equal dictionaries one signature: the items are put in a canonical order (sorted)
+    or combined by the order-insensitive combiner.  Hashing them in iteration order gives `{'a': 1, 'b': 2}` and `{'b': 2, 'a': 1}` - equal values - two
+    signatures, and a dictionary built from a set (whose iteration order follows the hash seed) a signature that changes from process to process."""
+    rep = ctx.report
+    n = 0
+    for names_, br_, bf_ in all_branches(ctx):
+        if "dict" not in names_:
+            continue
+        n += 1
+        body = ast.Module(body=br_.body, type_ignores=[])
+        its = [y for y in ast.walk(body) if isinstance(y, ast.Call) and isinstance(y.func, ast.Attribute) and y.func.attr in ("items", "keys")]
+        canon = [y for y in ast.walk(body) if isinstance(y, ast.Call) and unparse(y.func).split(".")[-1] in ("sorted", "dds_hash_commut", "frozenset")]
+        desc = "the plain-dict branch of the value hasher does not depend on the insertion order of the dictionary"
+        rep.roles[bf_.qname] = "role:value-hasher"
+        if its and not canon:
+            rep.bad(rule, bf_.qname, desc, bf_.loc(br_), [f"{bf_.loc(its[0])}: `{unparse(its[0], 40)}` is hashed in iteration (insertion) order",
+                    "weights = {n: len(n) for n in {'alpha', 'beta', 'gamma', 'delta'}}: equal dictionaries in every process, inserted in the iteration order of a set, which follows "
+                    "PYTHONHASHSEED: dds.keep('/total', total, weights) gets another signature in another process"], "dict-insertion-order",
+                    what="equal dictionaries built in different insertion orders get different signatures (hash-seed dependent for dictionaries built from sets)")
+        else:
+            rep.ok(rule, bf_.qname, desc, bf_.loc(br_))
+    return n
